@@ -33,7 +33,7 @@ pub struct G<'a> {
 
 pub const HOSTILE_CLASSES: &[&str] = &["non-xml-character", "blank-map-key", "time-stamp-name", "empty-icon-or-binary", "bytes-value", "lossy-text", "protected-odd", "odd-key", "subsecond-time"];
 
-const NICE: &[&str] = &["a", "Title", "x y", "<b>&amp;\"'</b>", "line1\nline2", "tab\there", "\u{e9}\u{4e2d}\u{1F511}", " lead", "trail ", "]]>", "a;b", "1", "True", "#000000"];
+const NICE: &[&str] = &["a", "Title", "x y", "<b>&amp;\"'</b>", "line1\nline2", "tab\there", "\u{e9}\u{4e2d}\u{1F511}", " lead", "trail ", "]]>", "a;b", "1", "True", "#000000", "a\rb", "x\r\ny"];
 
 impl<'a> G<'a> {
     pub fn new(rng: &'a mut Rng, mode: Mode, plant: bool) -> G<'a> {
